@@ -21,8 +21,8 @@ import time
 from . import env
 
 KNOWN_PATH = os.path.join(env.VERIF_ROOT, "known_findings.json")
-EVIDENCE_DIR = os.path.join(env.VERIF_ROOT, "evidence")
-REPLAY_DIR = os.path.join(env.VERIF_ROOT, "replays")
+EVIDENCE_DIR = os.environ.get("VERIF_EVIDENCE_DIR") or os.path.join(env.VERIF_ROOT, "evidence")
+REPLAY_DIR = os.path.join(os.environ["VERIF_EVIDENCE_DIR"], "replays") if os.environ.get("VERIF_EVIDENCE_DIR") else os.path.join(env.VERIF_ROOT, "replays")
 
 
 def load_known():
